@@ -433,7 +433,8 @@ PLUGS = {
                 with_history(union_stream(seed + 7, sizes(tier, 300, 5000), op='roundtrip'), seed + 1, 0.5) + gen.scenarios_union_history(seed, sizes(tier, 250, 3000)) +
                 [sc for sc in gen.scenarios_tagged(seed + 4, sizes(tier, 1200, 15000)) if 'union' in sc['ty']] +
                 with_oracles(gen.scenarios_special_unions(seed, sizes(tier, 400, 5000)), ['c11']) +
-                with_oracles(gen.scenarios_union_boundary(seed, sizes(tier, 300, 4000), ops=('from_data', 'roundtrip')), ['c11']),
+                with_oracles(gen.scenarios_union_boundary(seed, sizes(tier, 300, 4000), ops=('from_data', 'roundtrip')), ['c11']) +
+                gen.scenarios_unionnorm(seed, sizes(tier, 400, 5000)),
                 project=proj_verdict_value, oracles=['c11'], disagreement_is_failure=True),
     'C12': dict(streams=lambda seed, tier: gen.scenarios_tagged(seed, sizes(tier, 1500, 25000)) +
                 with_defaultdicts(gen.scenarios_tagged(seed + 9, sizes(tier, 600, 8000)), seed),
@@ -455,7 +456,7 @@ PLUGS = {
                 gen.scenarios_process(seed, sizes(tier, 300, 4000), generic_share=0.2),
                 project=proj_full, oracles=['c16'], disagreement_is_failure=True, exhaustive_part='hashcube'),
     'C17': dict(streams=lambda seed, tier: gen.scenarios_process(seed, sizes(tier, 1500, 25000), generic_share=0.7) +
-                gen.scenarios_generic_nested(seed, sizes(tier, 300, 4000)),
+                gen.scenarios_generic_nested(seed, sizes(tier, 300, 4000)) + gen.scenarios_c3(seed, sizes(tier, 400, 6000)),
                 project=proj_full, oracles=['c17'], disagreement_is_failure=True),
     'C18': dict(streams=lambda seed, tier: gen.scenarios_handlers(seed, sizes(tier, 2500, 30000)) + gen.scenarios_reach(seed, sizes(tier, 500, 6000)) +
                 [s for s in gen.scenarios_process(seed, sizes(tier, 600, 6000), generic_share=0.0) if 'custom' in json.dumps(s['decls'])],
@@ -584,6 +585,11 @@ def main():
                 samples.append({'scenario': slim(s), 'impl': io})
         if len(failing) > 20:
             break
+    # a crash of the HARNESS or of the driver is a tool failure (exit 2), never a verdict about the library
+    broken_tool = [d for d in disagreements if str(d.get('why', '')).startswith(('harnessError', 'driverError'))]
+    if broken_tool and len(broken_tool) == len(disagreements) and not failing:
+        print('tool failure: ' + str(broken_tool[0].get('why'))[:300] + ' :: ' + json.dumps(broken_tool[0].get('impl'))[:600], file=sys.stderr)
+        sys.exit(2)
     searched = None
     if a.search and not failing:
         searched = pinned_search(a, plug, failing)
